@@ -26,6 +26,8 @@ SIMS = [
     ("n4-byz0", dict(), 4, [1, 1, 1, 1], [1, 2, 3]),
     ("n4-byz1", dict(Honest="{0,2,3}"), 4, [1, 1, 1, 1], [0, 2, 3]),
     ("n4-crash", dict(Honest="{0,1,2}", Variants="{0}"), 4, [1, 1, 1, 1], [0, 1, 2]),
+    # proposals may arrive before their batches (payload waiter and loop-back path); replayed in the rig's payload mode
+    ("n4-late", dict(Honest="{0,1,2}", LatePayload="TRUE"), 4, [1, 1, 1, 1], [0, 1, 2]),
     ("n5", dict(N="5", Stake="<- S5", Honest="{0,1,2,4}"), 5, [1] * 5, [0, 1, 2, 4]),
     ("n7", dict(N="7", Stake="<- S7", Honest="{0,1,3,4,6}"), 7, [1] * 7, [0, 1, 3, 4, 6]),
     ("n4-unequal", dict(Stake="<- S4u", Honest="{0,1,3}"), 4, [2, 1, 2, 2], [0, 1, 3]),
@@ -129,7 +131,7 @@ def run(ctx):
     if r["violated"]:
         ctx.violation("HotStuff.tla violates %s (exhaustive closed-system model)" % r["violated"], "model", {"tlc_output_tail": r["out"][-5000:]})
     scheds = {}
-    for name, over, n, stakes, honest in (SIMS[:3] if q else SIMS):
+    for name, over, n, stakes, honest in (SIMS[:4] if q else SIMS):
         r = simulate(ctx, name, over, 40 if q else 1500, 400, sched_depth=(110 if q else 160))
         if r["violated"]:
             ctx.violation("HotStuff.tla violates %s (closed-system simulation %s)" % (r["violated"], name), "model", {"tlc_output_tail": r["out"][-5000:]})
